@@ -90,5 +90,8 @@ class TpmFile(Tpm):
         else:
             raise ValueError(f'Unsupported key type {key_type}')
         key_name = self.construct_key_name(id_name, pub_key, **kwargs)
+        if self.key_exist(key_name):
+            # An explicit (or hash-derived) key id that is already in use: never overwrite a stored private key
+            raise ValueError(f'Key {Name.to_str(key_name)} already exists')
         self.save_key(key_name, key_der)
         return key_name, pub_key
